@@ -69,7 +69,7 @@ PROPS = {
                 "always returns true and with pseudo-random pruning masks; non-trivial = distinct (source, mask) that parses",
     },
     "C12": {
-        "case_sets": ["parse", "compile", "walk", "lex"],
+        "case_sets": ["parse", "compile", "walk", "lex", "weirdparams"],
         "ops": ["PARSE", "PARSEV", "SCAN", "SPLIT", "WALK", "COMPILE", "COMPILESEQ"],
         "oracle_clauses": [r"c12-.*"],
         "lean_targets": ["PqlModel.Props.C12", "PqlModel.Props.C12Fuel", "PqlModel.Props.C13Exact"],
@@ -102,7 +102,7 @@ PROPS = {
     },
     "C05": {
         "case_sets": ["compile", "content"],
-        "ops": ["COMPILE"],
+        "ops": ["COMPILE", "COMPILESEQ"],
         "oracle_clauses": [r"c05-.*", r"c01-keyword-function-name", r"unreadable-.*"],
         "lean_targets": ["PqlModel.Props.C05", "PqlModel.Props.C02Split", "PqlModel.Props.C05SplitRefines", "PqlModel.Props.C05LexStatement", "PqlModel.Props.C02Semantics", "PqlModel.Props.C02Statement", "PqlModel.Props.C05ParseStatement"],
         "facts": [],
@@ -123,7 +123,7 @@ PROPS = {
     },
     "C13": {
         "case_sets": ["compile"],
-        "ops": ["COMPILE"],
+        "ops": ["COMPILE", "COMPILESEQ"],
         "oracle_clauses": [r"c13-.*", r"unreadable-.*"],
         "lean_targets": ["PqlModel.Props.C13", "PqlModel.Props.C13Exact"],
         "facts": ["writerArityGuard", "knownFunctions", "joinTypes"],
